@@ -18,7 +18,7 @@ ID = "C01"
 LEVEL = "exploration"
 RULE = (
     "Hypothesis draws strictly convex problems (box QP with condition number <= 1e4, QP+quartic, QP+softplus; n=1..12), boxes of every kind (finite, one-sided, infinite, degenerate), feasible starts "
-    "on faces / vertices / interior, maxcor 1..10, gtol in {1e-3,1e-5,1e-6,1e-8}, ftol=0, maxiter=1500, maxfun=6000, exact gradient. In thorough additionally ALL start placements {lower, interior, upper}^n "
+    "on faces / vertices / interior, maxcor 1..10, gtol in {1e-3,1e-5,1e-6,1e-8}, ftol=0, maxiter=1500, maxfun=6000 (re-run once with 22500/90000 if the run ends on a budget limit), exact gradient. In thorough additionally ALL start placements {lower, interior, upper}^n "
     "for n<=4 on drawn problems. The harness recomputes g at the returned x and requires pg <= max(10*gtol, 10*sqrt(delta_f*L)) whatever the message. non-trivial = some variable is on a bound at "
     "the start with the gradient pushing outward, or >=1 bound is active at the returned point after >=1 iteration; distinct = distinct problem spec"
 )
@@ -57,10 +57,26 @@ def judge(prob, tr, gtol, spec, stats=None, extra_labels=()):
                         f"outward at start={n_out}, active at end={n_act}")
 
 
+def run_with_ample_budget(prob, maxcor, gtol, stats=None):
+    """The premise is an *ample* budget.  1500 iterations are ample for almost every generated problem
+    (median 14), but L-BFGS with one or two pairs on a condition number near 1e4 legitimately needs a few
+    thousand (SciPy's reference needs the same number): a run that ends on the iteration / evaluation limit
+    is therefore continued once with a 15x budget before it is judged."""
+    from vf.observe import MSG_EVAL, MSG_ITER
+
+    cfg = {"maxcor": maxcor, "maxiter": 1500, "maxfun": 6000, "maxls": 20, "ftol": 0.0, "gtol": gtol}
+    tr = run_min(prob, cfg)
+    if tr.exc is None and tr.res["message"] in (MSG_ITER, MSG_EVAL):
+        if stats is not None:
+            stats.bump("budget-escalated")
+        cfg.update(maxiter=22500, maxfun=90000)
+        tr = run_min(prob, cfg)
+    return tr
+
+
 def check(spec, stats=None):
     prob = build(spec["problem"])
-    cfg = {"maxcor": spec["maxcor"], "maxiter": 1500, "maxfun": 6000, "maxls": 20, "ftol": 0.0, "gtol": spec["gtol"]}
-    tr = run_min(prob, cfg)
+    tr = run_with_ample_budget(prob, spec["maxcor"], spec["gtol"], stats)
     judge(prob, tr, spec["gtol"], spec, stats)
 
 
@@ -81,9 +97,8 @@ def placements_body(spec, stats):
         p["x0"] = x0
         sub = {"problem": p, "maxcor": spec["maxcor"], "gtol": spec["gtol"]}
         prob = build(p)
-        cfg = {"maxcor": spec["maxcor"], "maxiter": 1500, "maxfun": 6000, "maxls": 20, "ftol": 0.0, "gtol": spec["gtol"]}
         try:
-            judge(prob, run_min(prob, cfg), spec["gtol"], sub, stats, extra_labels=("src=all-placements",))
+            judge(prob, run_with_ample_budget(prob, spec["maxcor"], spec["gtol"], stats), spec["gtol"], sub, stats, extra_labels=("src=all-placements",))
         except Violation as v:
             v.spec = sub
             raise Violation(v.clause, v.detail, sub)
